@@ -78,12 +78,17 @@ func suite() hlib.Suite {
 			}
 			for _, conc := range concs {
 				for _, limit := range []uint64{1, 2, 3, 7} {
-					for bi, body := range []time.Duration{time.Millisecond, 150 * time.Millisecond, time.Millisecond} {
+					for bi, body := range []time.Duration{time.Millisecond, 150 * time.Millisecond, time.Millisecond, time.Millisecond} {
 						if !r.Mine() || r.Expired() {
 							continue
 						}
 						// third variant: the first iteration marks the scenario-level handle (the one setup got) failed;
 						// the run still makes exactly the allowed iterations
+						// fourth variant (C03 only): every second iteration fails; failed iterations count like any other
+						someFail := bi == 3
+						if someFail && *prop != "C03" {
+							continue
+						}
 						failsScenarioT := bi == 2
 						if failsScenarioT && *prop != "C03" {
 							if conc <= 3 {
@@ -105,6 +110,9 @@ func suite() hlib.Suite {
 						if failsScenarioT {
 							input += " first-iteration-fails-the-scenario-level-handle"
 						}
+						if someFail {
+							input += " every-second-iteration-fails"
+						}
 						r.SampleCase(input)
 						var ids []int
 						inflight, hw := 0, 0
@@ -124,6 +132,9 @@ func suite() hlib.Suite {
 								ids = append(ids, id)
 								if failsScenarioT && len(ids) == 1 {
 									scenarioT.Fail()
+								}
+								if someFail && len(ids)%2 == 0 {
+									defer t.Fail()
 								}
 								inflight++
 								if inflight > hw {
